@@ -34,10 +34,15 @@ func grantingPattern(r *rand.Rand, can string) string {
 	case 0:
 		return "*"
 	case 1:
-		for i := len(can) - 1; i >= 0; i-- {
+		// a namespace wildcard over ANY parent namespace of the ability ("space/*" as well as "space/blob/*")
+		var cuts []int
+		for i := 0; i < len(can); i++ {
 			if can[i] == '/' {
-				return can[:i] + "/*"
+				cuts = append(cuts, i)
 			}
+		}
+		if len(cuts) > 0 {
+			return can[:cuts[r.Intn(len(cuts))]] + "/*"
 		}
 	}
 	return can
